@@ -159,11 +159,8 @@ theorem number_stable_after_forget_handles (e : Env) (hk : e.useHostIno = false)
 /-- Rename and unlink do not touch the inode table: every number stays valid with the same entry
     (so a referenced inode survives rename, and unlink when tracked by descriptor). -/
 theorem survives_rename_and_unlink (e : Env) (s : St) (p1 p2 : Ino) (st1 st2 : Bool) (hr : Errno) :
-    (opRename e s p1 st1 p2 st2 hr).1.data = s.data ∧ (opUnlink e s p1 st1 hr).1.data = s.data := by
-  constructor
-  · have := step_tr e s Spec.init (.rename p1 st1 p2 st2 hr)
-    exact (Tr.data_eq_of_frame (e := e) (s := s) (op := .rename p1 st1 p2 st2 hr))
-  · exact (Tr.data_eq_of_frame (e := e) (s := s) (op := .unlink p1 st1 hr))
+    (opRename e s p1 st1 p2 st2 hr).1.data = s.data ∧ (opUnlink e s p1 st1 hr).1.data = s.data :=
+  ⟨data_of_tables (tables_opRename e s p1 st1 p2 st2 hr), data_of_tables (tables_opUnlink e s p1 st1 hr)⟩
 
 /-- `(unique_id << 47) | ino` is injective on (id, host inode ≤ MAX_HOST_INO), the virtual range
     (bit 55 set) is disjoint from the host range and injective in (id, counter), no packed number
